@@ -244,16 +244,56 @@ def judge_device(cases, vio):
     'assembled although illegal' and 'assembled to other bytes' count"""
     return [v for v in vio if not (v['source'].startswith('.device') and v['what'].startswith('valid instruction') and v['impl'].startswith('ERR'))]
 
+def core_cases(model_ok):
+    """the reduced cores of the device table: pointer operands with a displacement (spelled ld/st or
+    ldd/std), in and beyond the field, on every device - a core without displacement addressing must
+    refuse them (verdict of the independent device-requirement table), any other core must give the
+    reference word or refuse what is outside the field"""
+    from . import c13
+    import vlib
+    devs = c13.devices()
+    fs = []
+    for p in 'YZ':
+        for q in (0, 1, 7, 63, 64, -1):
+            for r in (0, 5, 31):
+                for m in ('ld', 'ldd'): fs.append(mk(m, R(r), ('%s+%d' % (p, q), 'i%s+q%d' % (p, q))))
+                for m in ('st', 'std'): fs.append(mk(m, ('%s+%d' % (p, q), 'i%s+q%d' % (p, q)), R(r)))
+    trip, meta, lines = [], [], []
+    for dname, opts, avr8l in devs:
+        for f in fs:
+            i = len(trip)
+            trip.append((str(i), 'B', vlib.hx('.device %s\n%s' % (dname, f.src)))); meta.append((dname, f))
+            lines.append('%d GATE %s %s %s' % (i, opts, f.mn, ' '.join(f.toks)))
+            lines.append('e%d ENC %d %s 0 %s' % (i, 1 if avr8l else 0, f.mn, ' '.join(f.toks)))
+    impl = vlib.run_impl(trip)
+    model = vlib.run_model(trip, vlib.cwd_prelude()) if model_ok else {}
+    spec, _, _ = vlib.run_lines(E.SPEC, lines, mode=None)
+    dis, vio = [], []
+    for i, (dname, f) in enumerate(meta):
+        k = str(i); a = impl.get(k, 'MISSING'); src = '.device %s\n%s' % (dname, f.src)
+        if model_ok and a != model.get(k, 'MISSING'):
+            dis.append({'source': src, 'impl': a[:200], 'model': model.get(k, 'MISSING')[:200]})
+        e = spec.get('e' + k, '')
+        exp = E.expected_canon_code(e) if e.startswith('W') else None
+        if spec.get(k) == 'DENY' or exp is None:
+            if not a.startswith('ERR'):
+                vio.append({'what': 'operand the selected core cannot encode was assembled', 'source': src, 'impl': a[:160], 'expected': 'error', 'key': dname + ':' + f.mn})
+        elif a.startswith('OK') and E.code_of(a) != exp:
+            vio.append({'what': 'assembled to other bytes than the reference encoding', 'source': src, 'impl': a[:160], 'expected_code': exp, 'key': dname + ':' + f.mn})
+    return len(trip), dis, vio
+
 def run(tier, seed, model_ok):
     cases = list(window_cases(tier)) + list(wrap_cases(tier)) + list(confusion_cases(tier)) + list(symbolic_cases(tier)) + list(computed_cases(tier))
     dis, vio = E.run_enc(cases, model_ok, 'C04')
     vio = judge_device(cases, vio)
+    n_core, dis2, vio2 = core_cases(model_ok)
+    dis += dis2; vio += vio2
     import subprocess
     dist = Counter(c.mn for c in cases)
     illegal = None
     return {
-        'evaluations': len(cases), 'distinct_nontrivial': len({c.src for c in cases}),
-        'rule': 'every mnemonic x all registers 0..31 in each register position x every value in [lo-130, hi+130] of each value field (plus the byte-wrap zone 250..330, i64 extremes, and for every value field the values that come into range only after truncation to 8, 16 or 32 bits: v ± 2^w, v + 2·2^w), all index forms incl. X/Y/Z displacements in the window; every mnemonic x every list of 0..3 operands over the kinds register/value/index (kind and count confusions), default core and ATtiny20; the register/value families again with every register written through a .def alias (all 32 in each position) and values through .equ symbols / compound expressions at the range ends; the value families once more with the value computed (a .set symbol captured from pc behind code; a macro argument whose grouping matters: a-(b-c), x/(y/z), x>>(y>>z)); distinct = distinct source texts',
+        'evaluations': len(cases) + n_core, 'distinct_nontrivial': len({c.src for c in cases}),
+        'rule': 'every mnemonic x all registers 0..31 in each register position x every value in [lo-130, hi+130] of each value field (plus the byte-wrap zone 250..330, i64 extremes, and for every value field the values that come into range only after truncation to 8, 16 or 32 bits: v ± 2^w, v + 2·2^w), all index forms incl. X/Y/Z displacements in the window; every mnemonic x every list of 0..3 operands over the kinds register/value/index (kind and count confusions), default core and ATtiny20; the register/value families again with every register written through a .def alias (all 32 in each position) and values through .equ symbols / compound expressions at the range ends; the value families once more with the value computed (a .set symbol captured from pc behind code; a macro argument whose grouping matters: a-(b-c), x/(y/z), x>>(y>>z)); every device of the table x ld/ldd/st/std with Y/Z displacements in and beyond the field (cores without displacement addressing must refuse them); distinct = distinct source texts',
         'samples': [cases[0].src, cases[len(cases) // 3].src, cases[-1].src],
         'exhaustive': True,
         'distribution': {'cases_per_mnemonic_top': dist.most_common(10), 'mnemonics': len(dist)},
